@@ -806,6 +806,16 @@ def database_stream(ctx, impl, n):
             if any("\x00" in a for a in argv):
                 continue
             cases.append(argv)
+            # a twin command with the same option spellings whose SEPARATE-form values differ (two entries of one database
+            # that share every dash-prefixed argument: a per-database cache keyed on the flags alone would confuse them)
+            if ctx.rng.random() < 0.35:
+                twin, changed = list(argv), False
+                for i in range(len(twin) - 1):
+                    if twin[i] in ("-D", "-I", "-isystem", "-include") and not twin[i + 1].startswith("-"):
+                        twin[i + 1] = twin[i + 1] + ("_t" if twin[i] == "-D" and "=" not in twin[i + 1] else "2")
+                        changed = True
+                if changed and not py_classes(twin):
+                    cases.append(twin)
         db = []
         for argv in cases:
             full = ["cc"] + argv
